@@ -14,6 +14,7 @@ import (
 	"os/exec"
 	"sort"
 	"strings"
+	"sync/atomic"
 	"time"
 )
 
@@ -54,6 +55,11 @@ func safeExec(s *Stream, line string) (out string) {
 }
 
 var lastPanic string
+
+// see the watchdog in runStream
+const streamHangAfter = 90 * time.Second
+
+var streamOutPath string
 
 type Disagreement struct {
 	Stream string `json:"stream"`
@@ -142,15 +148,47 @@ func runStream(s *Stream, seed uint64, n int, thorough bool, driver string, corp
 		st.EnumCount = len(lines) - before
 		st.Exhaustive = true
 	}
-	// 3. generated
+	// 3. generated.  The generators call the real code too (encoders, to lay out inputs):
+	// one case that does not come back within streamHangAfter is reported like a hang
+	// of the run loop below, with the previous line as the place.
 	r := NewRng(seed ^ hashStr(s.Name))
+	var genIdx atomic.Int64
+	genDone := make(chan struct{})
+	go func() {
+		last, since := int64(-1), time.Now()
+		tick := time.NewTicker(time.Second)
+		defer tick.Stop()
+		for {
+			select {
+			case <-genDone:
+				return
+			case now := <-tick.C:
+				if i := genIdx.Load(); i != last {
+					last, since = i, now
+				} else if now.Sub(since) >= streamHangAfter {
+					st.NDisagree++
+					st.Disagreements = append(st.Disagreements, Disagreement{Stream: s.Name, Index: int(i), Line: fmt.Sprintf("(generator of stream %s, case %d of seed %d)", s.Name, i, seed), Go: fmt.Sprintf("hang: the real code, called by the generator, has not returned after %v", streamHangAfter), Model: "(not compared)"})
+					js, _ := json.MarshalIndent(st, "", " ")
+					if streamOutPath != "" {
+						os.WriteFile(streamOutPath, js, 0o644)
+					} else {
+						fmt.Println(string(js))
+					}
+					fmt.Fprintln(os.Stderr, "stream", s.Name, ": HANG in the generator, case", i, "- statistics written, exiting")
+					os.Exit(3)
+				}
+			}
+		}
+	}()
 	for i := 0; i < n; i++ {
+		genIdx.Store(int64(i))
 		l, tags := s.Gen(r.Fork(), thorough)
 		lines = append(lines, l)
 		for _, t := range tags {
 			st.Tags[t]++
 		}
 	}
+	close(genDone)
 	// run model
 	cmd := exec.Command(driver)
 	stdin, err := cmd.StdinPipe()
@@ -186,8 +224,49 @@ func runStream(s *Stream, seed uint64, n int, thorough bool, driver string, corp
 	sc := bufio.NewScanner(stdout)
 	sc.Buffer(make([]byte, 1<<20), 1<<28)
 	seen := map[uint64]struct{}{}
+	// watchdog: a line the real code does not come back from within streamHangAfter is a
+	// result, not a reason to sit until somebody's timeout kills the whole check: the
+	// statistics so far are written with that line as a disagreement (go = "hang") and
+	// the process exits (a goroutine stuck in a loop cannot be stopped).
+	var curIdx atomic.Int64
+	curIdx.Store(-1)
+	wdStop := make(chan struct{})
+	defer close(wdStop)
+	go func() {
+		last, since := int64(-2), time.Now()
+		tick := time.NewTicker(time.Second)
+		defer tick.Stop()
+		for {
+			select {
+			case <-wdStop:
+				return
+			case now := <-tick.C:
+				i := curIdx.Load()
+				if i != last {
+					last, since = i, now
+					continue
+				}
+				if i < 0 || now.Sub(since) < streamHangAfter {
+					continue
+				}
+				st.NDisagree++
+				st.Disagreements = append([]Disagreement{{Stream: s.Name, Index: int(i), Line: lines[i], Go: fmt.Sprintf("hang: the real code has not returned after %v", streamHangAfter), Model: "(not compared)"}}, st.Disagreements...)
+				st.WallS = time.Since(t0).Seconds()
+				js, _ := json.MarshalIndent(st, "", " ")
+				if streamOutPath != "" {
+					os.WriteFile(streamOutPath, js, 0o644)
+				} else {
+					fmt.Println(string(js))
+				}
+				fmt.Fprintln(os.Stderr, "stream", s.Name, ": HANG on line", i, "- statistics written, exiting")
+				os.Exit(3)
+			}
+		}
+	}()
 	for i, l := range lines {
+		curIdx.Store(int64(i))
 		goOut := safeExec(s, l)
+		curIdx.Store(-1)
 		var modelOut string
 		if sc.Scan() {
 			modelOut = sc.Text()
@@ -263,6 +342,7 @@ func main() {
 			fmt.Fprintln(os.Stderr, "unknown stream", *stream)
 			os.Exit(2)
 		}
+		streamOutPath = *out
 		st, err := runStream(s, *seed, *n, *thorough, *driver, *corpus, *lines)
 		if err != nil {
 			fmt.Fprintln(os.Stderr, "error:", err)
